@@ -48,7 +48,16 @@ L.ensure_built()
 L.warm_cache()
 th = L.tree_hash()
 obs = {f: orchestrator.load_family(f, "quick", th) for f in fams.split(",")}
-rep = Reporter(prop, "quick", 0)
-level, cov, asm = O.ORACLES[prop](obs, rep, "quick")
+for _ in range(10):  # a chained oracle may insist on the observations of another family: load it and try again
+    rep = Reporter(prop, "quick", 0)
+    try:
+        level, cov, asm = O.ORACLES[prop](obs, rep, "quick")
+        break
+    except KeyError as e:
+        fam = e.args[0]
+        if fam in obs or not isinstance(fam, str):
+            raise
+        print(f"(loading family {fam} as well)")
+        obs[fam] = orchestrator.load_family(fam, "quick", th)
 n = rep.new_violations()
 print(f"RESULT property={prop} families={fams} violations={n}")
